@@ -97,7 +97,15 @@ def insert_unsupported(rng, w, act, form):
         if not fterm:
             return False
         op = "+" if form == "nary-plus" else "*"
-        act["pre"] = act["pre"] + [[rng.choice([">=", "<="]), [op, fterm, "1", "2"], "3"]]
+        # operand shapes: fluent + literals, literals only, nested operand, four operands; in a condition or in an effect
+        operands = rng.choice([[fterm, "1", "2"], ["1", "2", "3"], ["2", "3", "4", "0.5"], [["-", fterm, "1"], "2", "3"], ["2", fterm, fterm]])
+        term = [op] + operands
+        if rng.random() < 0.6:
+            cmp_ = [rng.choice([">=", "<="]), term, "3"] if rng.random() < 0.5 else [rng.choice([">=", "<="]), fterm, term]
+            act["pre"] = act["pre"] + [cmp_]
+        else:
+            act["eff"] = ["and", [rng.choice(["increase", "assign"]), fterm, term]] + \
+                         [e for e in act["eff"][1:] if e[0] not in ("assign", "increase", "decrease") or e[1] != fterm]
     elif form == "unary-minus":
         if not fterm:
             return False
